@@ -17,9 +17,12 @@ LOCK_ORDER = {"objpid": 0, "refpid": 1, "cid": 2, "doc": 3}
 # ---------------------------------------------------------------------------------------------------
 def acquire(it, cls, k):
     st = it.ctx.st
-    env2 = it.ctx.fresh(f"env_{cls}", T.LockSort)
-    it.ctx.assume(z3.Select(env2, k) == 0)      # the wait loop only exits when k is free
-    st.env[cls] = env2
+    if it.ctx.__dict__.get("sequential"):
+        it.ctx.assume(z3.Select(st.env[cls], k) == 0)
+    else:
+        env2 = it.ctx.fresh(f"env_{cls}", T.LockSort)
+        it.ctx.assume(z3.Select(env2, k) == 0)      # the wait loop only exits when k is free
+        st.env[cls] = env2
     st.own[cls] = z3.Store(st.own[cls], k, z3.Select(st.own[cls], k) + 1)
     st.held.append((cls, k))
 
